@@ -167,7 +167,10 @@ def lattice(model, quick):
                     if dt is not None and list(dt.names) != exp_names:
                         errs.append(("get_dtype:field-order", f"{dt.names}"))
                     # array -> live points -> array
-                    a = guard(f"numpy_array_to_live_points[{tag}]", lambda: lp.numpy_array_to_live_points(mat.copy(), names, non_sampling_parameters=nsp))
+                    mat_in = mat.copy()
+                    a = guard(f"numpy_array_to_live_points[{tag}]", lambda: lp.numpy_array_to_live_points(mat_in, names, non_sampling_parameters=nsp))
+                    if bits(mat_in) != bits(mat):
+                        errs.append((f"numpy_array_to_live_points[{tag}]:modifies-its-input", ""))
                     if a is not None:
                         check_lp(a, names, mat, model, nsp, f"numpy_array_to_live_points[{tag}]", errs)
                         back = guard("live_points_to_array", lambda: lp.live_points_to_array(a, names))
@@ -178,6 +181,7 @@ def lattice(model, quick):
                     if a is not None and (shift == 0 or d <= 3):
                         # every selection of names: all ordered subsets for d <= 3, a structured
                         # family (reversed, rotated, last only, last+first, every other) above
+                        a_bytes = a.tobytes()
                         for sel in selections(names):
                             cols = [names.index(s_) for s_ in sel]
                             for cp in (False, True):
@@ -196,6 +200,8 @@ def lattice(model, quick):
                                     errs.append(("live_points_to_dict[selection]:key-order", f"{list(sub.keys())} vs {sel}"))
                                 elif any(bits(sub[s_]) != bits(mat[:, c]) for s_, c in zip(sel, cols)):
                                     errs.append(("live_points_to_dict[selection]:values", f"{sel}"))
+                        if a.tobytes() != a_bytes:
+                            errs.append(("live_points_to_array/dict:modifies-the-live-points", tag))
                         try:
                             r_ = lp.live_points_to_array(a, list(names) + ["not_a_field_"])
                             if r_.shape[-1] != d + 1:
@@ -224,7 +230,10 @@ def lattice(model, quick):
                         forms["npscalars"] = {nm: mat[0, j] for j, nm in enumerate(names)}
                     for fname, dd in forms.items():
                         w = f"dict_to_live_points[{fname},{tag}]"
+                        snap_ = {k_: (v_.copy() if isinstance(v_, np.ndarray) else (list(v_) if isinstance(v_, list) else v_)) for k_, v_ in dd.items()}
                         o = guard(w, lambda: lp.dict_to_live_points(dd, non_sampling_parameters=nsp))
+                        if list(dd.keys()) != list(snap_.keys()) or any(bits(np.asarray(dd[k_], dtype=float)) != bits(np.asarray(snap_[k_], dtype=float)) for k_ in snap_):
+                            errs.append((f"{w}:modifies-its-input", ""))
                         if o is not None:
                             check_lp(o, names, mat, model, nsp, w, errs)
                     if a is not None:
@@ -247,6 +256,8 @@ def lattice(model, quick):
                     df = pd.DataFrame({nm: mat[:, j] for j, nm in enumerate(names)})
                     w = f"dataframe_to_live_points[{tag}]"
                     o = guard(w, lambda: lp.dataframe_to_live_points(df, non_sampling_parameters=nsp))
+                    if list(df.columns) != list(names) or any(bits(df[nm].to_numpy()) != bits(mat[:, j]) for j, nm in enumerate(names)):
+                        errs.append((f"{w}:modifies-its-input", ""))
                     if o is not None:
                         check_lp(o, names, mat, model, nsp, w, errs)
                     # empty structured array
